@@ -287,7 +287,7 @@ func collisionScenario2(sameData, owned, listed bool) func(*fam) {
 // C08 directed: rollback A -> B -> A where the renumbering update of revision A is answered with a fault.
 // Whatever the reconcile then reports, a reconcile that succeeds leaves A numbered above B (judged by the
 // per-reconcile monitor: update-revision-not-the-newest), and the calm phase ends with A as update revision.
-func rollbackFaultScenario(kind, mode string, catchUp bool) func(*fam) {
+func rollbackFaultScenario(kind, mode string, catchUp, nilOnError bool) func(*fam) {
 	return func(f *fam) {
 		w, r := f.w, f.r
 		r.Sets = []string{"web"}
@@ -304,10 +304,14 @@ func rollbackFaultScenario(kind, mode string, catchUp bool) func(*fam) {
 		r.Calm(1)
 		w.EditSet("web", func(s *asv1.StatefulSet) { s.Spec.Template = world.Template(s.Spec.Selector.MatchLabels, 0) })
 		w.DeliverAll()
-		r.Trace = append(r.Trace, fmt.Sprintf("directed rollback: renumbering update of %s answered with %s/%s (caches catch up mid-reconcile: %v)", nameA, kind, mode, catchUp))
+		r.Trace = append(r.Trace, fmt.Sprintf("directed rollback: renumbering update of %s answered with %s/%s (caches catch up mid-reconcile: %v, failed calls return nil objects: %v)", nameA, kind, mode, catchUp, nilOnError))
 		w.Srv.AddFault(&simapi.Fault{Identity: "update|controllerrevisions||" + nameA, Occ: 0, Kind: kind, Mode: mode})
 		w.CatchUp = catchUp
+		// under either client convention for the object returned next to an error (nil as the generated
+		// fakes do, zero-valued as the real typed clients do: the retry closure looks at it)
+		w.Srv.NilOnError = nilOnError
 		rec := r.Reconcile("web")
+		w.Srv.NilOnError = false
 		w.CatchUp = false
 		w.Srv.ClearFaults()
 		fired := false
@@ -338,8 +342,10 @@ func init() {
 	}
 	directedC08 = []func(*fam){collisionScenario(false), collisionScenario(true),
 		collisionScenario2(false, true, true), collisionScenario2(false, true, false), collisionScenario2(false, false, true), collisionScenario2(true, true, true),
-		rollbackFaultScenario("conflict", "before", false), rollbackFaultScenario("conflict", "before", true), rollbackFaultScenario("500", "before", false),
-		rollbackFaultScenario("timeout", "after", false), rollbackFaultScenario("500", "after", true)}
+		rollbackFaultScenario("conflict", "before", false, false), rollbackFaultScenario("conflict", "before", true, false), rollbackFaultScenario("500", "before", false, false),
+		rollbackFaultScenario("timeout", "after", false, false), rollbackFaultScenario("500", "after", true, false),
+		rollbackFaultScenario("conflict", "before", false, true), rollbackFaultScenario("conflict", "before", true, true), rollbackFaultScenario("500", "before", false, true),
+		rollbackFaultScenario("timeout", "after", false, true)}
 	directedC12 = []func(*fam){staleStatusScenario(asv1.ParallelPodManagement, "labels"), staleStatusScenario(asv1.OrderedReadyPodManagement, "labels"),
 		staleStatusScenario(asv1.ParallelPodManagement, "generation"), staleStatusScenario(asv1.OrderedReadyPodManagement, "generation"),
 		staleStatusRegress(asv1.ParallelPodManagement), staleStatusRegress(asv1.OrderedReadyPodManagement)}
